@@ -29,6 +29,7 @@ func checkC18(c *Ctx) {
 
 	c.Rule("C18/R8", "collected keys are sorted by a total order on the keys themselves: every slice of map keys gathered in a map range is sorted by a standard value sort, or by a comparator whose every comparison is between the elements' own components or their String/StringValues renderings (nothing lossy such as a normalised date, nothing stateful such as a projection's observation order) and which, for struct keys, compares every field")
 	c.Rule("C18/R9", "a summary is a function of its point's samples: every table in benchseries that remembers computed results is keyed by every input of the remembered computation, verbatim (a product of hashes is not the pair of samples)")
+	c.Rule("C18/R13", "no order statistic reads past its sample: where benchseries tests a position against a length, every later read at that base stays within what was tested (same matcher as C07/R14)")
 	c.Rule("C18/R12", "per-table collections are per table: no local map made before a loop is filled inside the loop and consumed whole (ranged, measured, handed on) inside the same loop")
 	c.Rule("C18/R11", "Builder.Add files each fact under its own role: it ranges over the very slice ProjectValues returned, indexes result.Values with that loop's counter, nothing writes through the slice of unit keys; and a trial's baseline hash is stored only where the result's compare value equals the builder's denominator value")
 	c.Rule("C18/R10", "a point's place on the series axis is that of its own numerator hash: in the loop over a trial's numerator hashes the series stamp that is normalised is looked up under that hash (not taken once per trial or per builder)")
@@ -72,6 +73,7 @@ func checkC18(c *Ctx) {
 	c18ZeroDen(c, p)
 	c18Aligned(c, p)
 	c18PerTable(c, p)
+	c18Bounds(c, p)
 }
 
 // sortsParam: callee sorts parameter k on every return, with no element store afterwards.
@@ -1363,4 +1365,19 @@ func c18PerTable(c *Ctx, p *Prog) {
 	} else {
 		c.OK(R, "positive-control", "checker/testdata/lookbehind/lb.go", "matcher fires on the stored set hoisted out of its loop")
 	}
+}
+
+// c18Bounds (C18/R13): no order statistic reads past its sample (same matcher as C07/R14): where benchseries tests a
+// position against a length (i+g < len) every later read at that base stays within what was tested.
+func c18Bounds(c *Ctx, p *Prog) {
+	const R = "C18/R13"
+	n := 0
+	for _, fn := range p.Funcs("benchseries") {
+		sg, k := staleGuards(fn)
+		n += k
+		for i, g := range sg {
+			c.Bad(R, fmt.Sprintf("%s:read-beyond-tested-bound#%d", fnName(fn), i+1), p.pos(g.Read.Pos()), fmt.Sprintf("the sample is read at offset %+d from a position that was only tested up to offset %+d against its length: for a confidence and sample count that put the interpolation point at the last element (N·(1−confidence)/2 < 1) the summary panics with an index out of range instead of giving low ≤ centre ≤ high", g.Offset, g.Guarded))
+		}
+	}
+	c.OK(R, "bounds:reads", "", fmt.Sprintf("%d guarded indexed reads in benchseries, none beyond its tested bound", n))
 }
